@@ -11,6 +11,19 @@ let vbool b = A (if b then "T" else "F")
 let vopt f = function None -> A "ERR" | Some x -> f x
 let vw = function None -> A "inf" | Some n -> I (int_of_nat n)
 
+(* Z <-> int (Z extracted as a datatype: Z0 | Zpos | Zneg over positive = XI | XO | XH) *)
+let rec pos_of_int i = if i <= 1 then XH else if i land 1 = 1 then XI (pos_of_int (i lsr 1)) else XO (pos_of_int (i lsr 1))
+let rec int_of_pos = function XH -> 1 | XO p -> 2 * int_of_pos p | XI p -> 2 * int_of_pos p + 1
+let z_of_int i = if i = 0 then Z0 else if i > 0 then Zpos (pos_of_int i) else Zneg (pos_of_int (- i))
+let int_of_z = function Z0 -> 0 | Zpos p -> int_of_pos p | Zneg p -> - (int_of_pos p)
+let zmat_of x = List.map (fun r -> List.map z_of_int (ints r)) (list_of x)
+let vzmat m = L (List.map (fun r -> L (List.map (fun z -> I (int_of_z z)) r)) m)
+let vmat d = L (List.map (fun r -> L (List.map vw r)) d)
+let vres f = function Ok x -> f x | TypeError -> A "TypeError" | ValueError -> A "ValueError" | KeyError -> A "KeyError"
+let vadj g = L [I (List.length g); L (List.map (fun l -> vnats (sort l)) g)]
+let optn = function A "NONE" -> None | I n -> Some (nat_of_int n) | _ -> failwith "optn"
+let ovs x = List.map (fun p -> match ints p with [a;b;c] -> ((nat_of_int a, nat_of_int b), nat_of_int c) | _ -> failwith "ov") (list_of x)
+
 let handle line = match parse line with
   | [A "fc"; g] -> vopt vbool (is_fully_connected (adj_of g))
   | [A "fcw"; g; I q] -> vopt vbool (is_fully_connected_without (adj_of g) (nat_of_int q))
@@ -25,6 +38,33 @@ let handle line = match parse line with
   | [A "gsubr"; g; loc; ren] -> vopt vpairs (get_subgraph (adj_of g) (nats loc) (Some (pairs ren)))
   | [A "perm"; I n; loc] -> let (cur, sw) = perm_loop (nat_of_int n) (nats loc) in
       L [vnats cur; vpairs sw; vnats (List.map (fun q -> push_wire sw q) (nats loc))]
+  | [A "fww"; I n; es; remote; I dw; I rw; ov] ->
+      vmat (floyd (nat_of_int n) (mk_mat (nat_of_int n) (pairs es) (pairs remote) (nat_of_int dw) (nat_of_int rw) (ovs ov)))
+  | [A "fwref"; I n; es; remote; I dw; I rw; ov] ->
+      vmat (floyd_ref (nat_of_int n) (mk_mat (nat_of_int n) (pairs es) (pairs remote) (nat_of_int dw) (nat_of_int rw) (ovs ov)))
+  | [A "fwijk"; I n; es; remote; I dw; I rw; ov] ->
+      vmat (fw_ijk (nat_of_int n) (mk_mat (nat_of_int n) (pairs es) (pairs remote) (nat_of_int dw) (nat_of_int rw) (ovs ov)))
+  | [A "mkg"; es; on] -> vres vadj (mk_graph (pairs es) (optn on))
+  | [A "topo"; A "all_to_all"; I n] -> vres vadj (all_to_all (nat_of_int n))
+  | [A "topo"; A "linear"; I n] -> vres vadj (linear (nat_of_int n))
+  | [A "topo"; A "ring"; I n] -> vres vadj (ring (nat_of_int n))
+  | [A "topo"; A "star"; I n] -> vres vadj (star (nat_of_int n))
+  | [A "topo"; A "grid"; I r; I c] -> vres vadj (grid (nat_of_int r) (nat_of_int c))
+  | [A "emb"; g; h] -> vbool (is_embedded_in (adj_of g) (adj_of h))
+  | [A "ind"; g; loc] -> vres vpairs (induced_subgraph (adj_of g) (nats loc))
+  | [A "relab"; es; A "NONE"] -> vres vadj (relabel_subgraph (pairs es) None)
+  | [A "relab"; es; ren] -> vres vadj (relabel_subgraph (pairs es) (Some (pairs ren)))
+  | [A "match"; order; ign] -> vpairs (maximal_matching (pairs order) (pairs ign))
+  | [A "kron"; a; b] -> vzmat (kron (zmat_of a) (zmat_of b))
+  | [A "otimes"; a; bs] -> vzmat (otimes (zmat_of a) (List.map zmat_of (list_of bs)))
+  | [A "ipow"; a; I p] -> vzmat (ipower (zmat_of a) (z_of_int p))
+  | [A "applyr"; rx; t; u; loc] -> vzmat (apply_right (nats rx) (zmat_of t) (zmat_of u) (nats loc))
+  | [A "applyl"; rx; t; u; loc] -> vzmat (apply_left (nats rx) (zmat_of t) (zmat_of u) (nats loc))
+  | [A "swapm"; I r] -> vzmat (swap_mat (nat_of_int r))
+  | [A "fql"; I n; I r; loc] ->
+      let m = from_qudit_location (nat_of_int n) (nat_of_int r) (nats loc) in
+      let e = perm_matrix (nat_of_int n) (nat_of_int r) (complete_perm (nat_of_int n) (nats loc)) in
+      L [vzmat m; vbool (m = e)]
   | _ -> A "BADCMD"
 
 let () =
